@@ -212,6 +212,13 @@ def install(rec):
             xt = extra_tol
             if name in ATOL_OPS:
                 xt += 30 * k.get("atol", ATOL_OPS[name])   # `atol` is also a truncation threshold
+            if name in ("pair_simplify", "loop_simplify", "split_simplify"):
+                # an explicit singular-value cutoff (compress_simplify passes its
+                # atol as cutoff) is a truncation threshold as well
+                try:
+                    xt += 30 * max(float(k.get("cutoff") or 0.0), 0.0)
+                except (TypeError, ValueError):
+                    pass
             ok = judge_value(rec, entry, snap, res, osig(k), xt)
             if ":" not in str(k.get("method", "")):
                 judge_flags(rec, entry, snap, res)
